@@ -3991,3 +3991,7 @@ B("SW-C16-pinning-flag-decoded-inverted", "C16", "C16:R-C16.3", "src/keyspace/co
 B("SW-C02-batch-item-accepts-empty-key", "C02", "C02:R-C02.8:batch::item::Item::new", "src/batch/item.rs",
   "        assert!(!k.is_empty());", "        let _ = k.is_empty();")
 E("EQ-pinning-flag-decoded-as-nonzero", "src/keyspace/config/pinning.rs", "            v.push(b == 1);", "            v.push(b != 0);", props=["C16"])
+B("SW-C01-readable-is-empty-inverted", "C01", "C01:R-C01.9:readable::Readable::is_empty", "src/readable.rs",
+  "            .transpose()?\n            .is_none())", "            .transpose()?\n            .is_some())")
+B("SW-C01-readable-len-counts-two", "C01", "C01:R-C01.9:readable::Readable::len", "src/readable.rs",
+  "            let _ = guard.key()?;\n            count += 1;", "            let _ = guard.key()?;\n            count += 2;")
